@@ -30,6 +30,8 @@ def obligations(tier):
                   bounds="two rows, each preamble (indent 0/4/8 or italic) optionally followed by tab offset 1-2, adjacent or not, single or doubled (preamble + tab offset doubled as a unit)"))
     obs.append(ch("three_rows", "harness.C05_scc", timeout=T, functions=F, exhaustive=True,
                   bounds="three rows, each adjacent to or one row apart from the previous, each with a plain or an italic preamble, single or doubled"))
+    obs.append(ch("two_captions", "harness.C05_scc", timeout=T, functions=F + ("NodeCreatorFactory.new_creator", "_PositioningTracker.reset/update_positioning"), exhaustive=True,
+                  bounds="two consecutive pop-on captions, each one of 8 row arrangements (1-2 rows; the second caption above, on, or directly below the first one's rows), with or without ENM, single/doubled: each caption at its own first row"))
     obs.append(ch("midrow_italics", "harness.C05_scc", timeout=T, functions=F, exhaustive=True,
                   bounds="three words on one row with mid-row italics switched on before word 0-2 and off after word 0-2, every row, single or doubled"))
     obs.append(ch("backspace", "harness.C05_scc", timeout=T, functions=F, exhaustive=True, bounds="1-3 character pairs, 0-2 backspaces each followed by characters, single or doubled"))
